@@ -608,6 +608,8 @@ func (o *ovsdbClient) echo(args []interface{}, reply *[]interface{}) error {
 // - json-value: the arbitrary json-value passed when creating the Monitor, i.e. the "cookie"
 // - table-updates: map of table name to table-update. Table-update is a map of uuid to (old, new) row paris
 func (o *ovsdbClient) update(params []json.RawMessage, reply *[]interface{}) error {
+	verifPoint(o, "update:enter")
+	defer verifPoint(o, "update:exit")
 	cookie := MonitorCookie{}
 	*reply = []interface{}{}
 	if len(params) > 2 {
@@ -653,6 +655,8 @@ func (o *ovsdbClient) update(params []json.RawMessage, reply *[]interface{}) err
 
 // update2 handling from ovsdb-server.7
 func (o *ovsdbClient) update2(params []json.RawMessage, reply *[]interface{}) error {
+	verifPoint(o, "update:enter")
+	defer verifPoint(o, "update:exit")
 	cookie := MonitorCookie{}
 	*reply = []interface{}{}
 	if len(params) > 2 {
@@ -694,6 +698,8 @@ func (o *ovsdbClient) update2(params []json.RawMessage, reply *[]interface{}) er
 
 // update3 handling from ovsdb-server.7
 func (o *ovsdbClient) update3(params []json.RawMessage, reply *[]interface{}) error {
+	verifPoint(o, "update:enter")
+	defer verifPoint(o, "update:exit")
 	cookie := MonitorCookie{}
 	*reply = []interface{}{}
 	if len(params) > 3 {
@@ -1023,6 +1029,7 @@ func (o *ovsdbClient) monitor(ctx context.Context, cookie MonitorCookie, reconne
 		o.metrics.numMonitors.Inc()
 	}
 
+	verifPoint(o, "monitor:reply")
 	db.cacheMutex.Lock()
 	defer db.cacheMutex.Unlock()
 
